@@ -313,6 +313,29 @@ class Tracer:
         out["etAdj"] = int(c.ETadj)
         return out
 
+    def _expected_fco2(self, s):
+        """CO2 factor of season s as the INITIALISATION path computes it for a fresh model started on that season's planting date (independent of the
+        season-start path under test).  None when not applicable: no scenario dictionary, or a concentration held constant for the whole run."""
+        sc = self.scenario
+        if not sc or (sc.get("co2") or {}).get("constant_conc"):
+            return None
+        try:
+            import copy as _copy
+            import scenario as _S
+            cs = self.model._clock_struct
+            b = _copy.deepcopy(sc)
+            for k in [k for k in b if k.startswith("_")]:
+                b.pop(k)
+            pdate = pd.Timestamp(cs.planting_dates[s])
+            hdate = pd.Timestamp(cs.harvest_dates[s])
+            b["start"] = pdate.strftime("%Y/%m/%d")
+            b["end"] = min(pd.Timestamp(cs.simulation_end_date), hdate + pd.Timedelta(days=2)).strftime("%Y/%m/%d")
+            m2 = _S.make_model(b)
+            m2._initialize()
+            return float(m2._param_struct.Seasonal_Crop_List[0].fCO2)
+        except BaseException:  # noqa  (a window the fresh model rejects: no oracle for this season)
+            return None
+
     def param_hash(self):
         m = self.model
         ps = m._param_struct
@@ -450,6 +473,13 @@ class Tracer:
                     continue
                 user[nm][k] = _enc(float(v) * 1000.0 if k == "z_bund" else v)
                 built[nm][k] = _enc(getattr(fm, k))
+        # crop parameters overridden by the user (those the specification reads)
+        user["crop"], built["crop"] = {}, {}
+        c0 = self._season_crop(0 if cs.n_seasons > 0 else -1) if cs.n_seasons > 0 else {}
+        for k, v in ((sc.get("crop") or {}).get("kw") or {}).items():
+            if k in c0 and isinstance(v, (int, float)) and not isinstance(v, bool) and isinstance(c0[k], list):
+                user["crop"][k] = to_num(float(v))
+                built["crop"][k] = c0[k]
         cfg["user"] = user
         cfg["built"] = built
         # user's schedule (by date) for the by-date clause of C13
@@ -565,6 +595,9 @@ class Tracer:
         if self._reset_called:
             s = int(cs.season_counter)
             adv["crop"] = self._season_crop(s)
+            exp = self._expected_fco2(s)
+            if exp is not None:
+                adv["expFco2"] = to_num(exp)
             adv["irrCum"] = to_num(ic.irr_cum)
             adv["irrNetCum"] = to_num(ic.irr_net_cum)
             adv["gddCum"] = to_num(ic.gdd_cum)
@@ -594,7 +627,17 @@ class Tracer:
 def trace_scenario(sc, level="full", max_steps=None, rowhex=False):
     import scenario as S
     try:
-        model = S.make_model(sc)
+        if sc.get("_prelude"):
+            # ANOTHER model (the listed keys overridden - typically another window) is built from the very same user objects and run first;
+            # the traced model is then built from those used objects (call-history dimension: shared objects across models)
+            objs = S.make_objects(sc)
+            pre = dict(sc)
+            pre.update(sc["_prelude"])
+            m0 = S.make_model(pre, objs)
+            m0.run_model(till_termination=True)
+            model = S.make_model(sc, objs)
+        else:
+            model = S.make_model(sc)
     except BaseException as exc:  # constructor-level rejection
         return {"cfg": None, "events": [{"e": "Reject", "phase": "construct", "type": type(exc).__name__, "msg": str(exc)[:300]}],
                 "outcome": {"status": "rejected", "phase": "construct", "type": type(exc).__name__, "msg": str(exc)[:300]},
